@@ -607,6 +607,8 @@ class Interp:
             else:
                 n = -(1 << (bits - 1)) if signed else 0
             return SInt(z3.BitVecVal(n, bits), bits, signed)
+        if c.startswith('b"'):
+            return SAgg("bytes", "", {0: eval(c)})       # byte-string constant (fmt templates)
         if c.startswith('"'):
             return SStr(eval(c) if "\\u{" not in c else c)
         mp = re.search(r"::promoted\[(\d+)\]$", c)
@@ -970,6 +972,10 @@ class Interp:
             if key in self.stubs:
                 self.stats["models_used"].add("stub:" + key)
                 return self.apply_model(st, self.stubs[key], args, dest, ret, callee)
+        for rx, fn in getattr(self, "stub_patterns", ()):
+            if rx.search(tf):
+                self.stats["models_used"].add("stub~" + rx.pattern)
+                return self.apply_model(st, fn, args, dest, ret, callee)
         target = self.resolve(callee)
         if target is not None:
             return self.push(st, target, args, dest, ret)
